@@ -99,6 +99,9 @@ class Run:
             f.write("// generated from /verif/known_findings.json: true = listed as an open known finding\n")
             for k in sorted(keys):
                 f.write("#[allow(dead_code)] pub(super) const %s: bool = %s;\n" % (k, "true" if k in open_keys else "false"))
+        # playback switch: harnesses whose stubs have a semantic effect rebuild that effect from real objects when replayed
+        with open(os.path.join(hdir, "mode.rs"), "w") as f:
+            f.write("#[allow(dead_code)] pub(super) const PLAYBACK: bool = false;\n")
         self.staged_sources = srcs
         return st
 
@@ -321,6 +324,9 @@ def replay_test(spec, stage, test_text, staged_sources):
         return False, "harness source not found"
     with open(target, "a") as f:
         f.write("\n" + test_text + "\n")
+    mode = os.path.join(os.path.dirname(target), "mode.rs")
+    with open(mode, "w") as f:
+        f.write("#[allow(dead_code)] pub(super) const PLAYBACK: bool = true;\n")
     tname = re.search(r"fn (kani_concrete_playback_\w+)", test_text).group(1)
     cmd = ["cargo", "kani", "playback", "-Z", "concrete-playback", "-Z", "stubbing", "-p", spec["package"], "--", tname]
     outs = []
